@@ -267,6 +267,10 @@ def run_bounded(ctx: Ctx, prop: str) -> bool:
             ctx.note(f"no bounded stand-in module for {prop}")
             return False
         raise
+    if not any("/state/" in o["name"] for o in ctx.obligations):
+        # every property is stated for every call, whatever happened before: the ground frame obligations on
+        # process-wide state belong to each of them (C11 / C18 emit them themselves, with the tree_copy part)
+        guarded(ctx, prop, lambda: encapsulation_obligations(ctx, cached_function_private=False))
     guarded(ctx, prop, lambda: m.run(ctx, ctx.tier, ctx.seed))
     return True
 
@@ -354,6 +358,7 @@ def encapsulation_obligations(ctx: Ctx, cached_function_private: bool = True) ->
                    backend="ground check on the ASTs of all modules", seconds=time.time() - t0,
                    detail=f"memoised functions: {sorted(memo)}; others than the two parsers: {others}; parser without cache: "
                           f"{missing}; tree_copy not outermost: {order_bad}")
+    state_obligations(ctx)
     if not cached_function_private:
         return
     t1 = time.time()
@@ -383,3 +388,85 @@ def encapsulation_obligations(ctx: Ctx, cached_function_private: bool = True) ->
                    backend="ground check on the AST of tree_copy", seconds=time.time() - t1, detail="; ".join(escapes) or None)
     ctx.obligation("state/no-access-path-around-the-copy", "discharged" if not around else "undecided",
                    backend="ground check on the ASTs of all modules", seconds=0.0, detail="; ".join(around[:8]) or None)
+
+
+_MUTATORS = ("append", "extend", "add", "update", "setdefault", "pop", "popitem", "clear", "insert", "remove", "discard",
+             "sort", "reverse", "__setitem__", "appendleft")
+
+
+def state_obligations(ctx: Ctx) -> None:
+    """More ground frame obligations on the ASTs of all repository modules: 'no call leaves anything behind that a later
+    call can observe'.  Each is a sufficient condition: failing = *undecided* (hidden state is not wrong by itself; the
+    bounded history parts decide), discharged = the class of history-dependent failures it names is excluded.
+    state/no-function-writes-module-level-state : no `global`, and no function stores into / calls a mutator of an
+        object bound at module level
+    state/context-variables-are-the-documented-ones : the only ContextVar is fc_evaluators.text_to_be_evaluated_by_format_constraint
+    state/transformers-do-not-rewrite-their-input : no class derives from lark's in-place transformers (A-LARK-FOLD is
+        only applicable to `Transformer`, which builds a new result and leaves the tree it is given alone)
+    state/no-mutable-default-arguments : no parameter default is a list / dict / set display or constructor call
+    """
+    import ast
+    v = verifier()
+    t0 = time.time()
+    writes, ctxvars, inplace, defaults = [], [], [], []
+    for name, mod in v.ex.repo.modules.items():
+        if not name.startswith("ahbicht"):
+            continue
+        module_names = set()
+        for node in mod.tree.body:
+            targets = []
+            if isinstance(node, ast.Assign):
+                targets = node.targets
+            elif isinstance(node, ast.AnnAssign) and node.value is not None:
+                targets = [node.target]
+            for t in targets:
+                if isinstance(t, ast.Name):
+                    module_names.add(t.id)
+                    val = node.value
+                    if isinstance(val, ast.Call) and _decorator_name(val) == "ContextVar":
+                        ctxvars.append(f"{name}:{t.id}")
+        for node in ast.walk(mod.tree):
+            if isinstance(node, ast.ClassDef):
+                for b in node.bases:
+                    bn = _decorator_name(b) if not isinstance(b, ast.Subscript) else _decorator_name(b.value)
+                    if bn in ("Transformer_InPlace", "Transformer_InPlaceRecursive", "Transformer_NonRecursive"):
+                        inplace.append(f"{name}:{node.name}({bn})")
+            if not isinstance(node, (ast.FunctionDef, ast.AsyncFunctionDef)):
+                continue
+            for d in list(node.args.defaults) + [d for d in node.args.kw_defaults if d is not None]:
+                if isinstance(d, (ast.List, ast.Dict, ast.Set)) or \
+                        (isinstance(d, ast.Call) and _decorator_name(d) in ("list", "dict", "set", "defaultdict")):
+                    defaults.append(f"{name}:{node.name} line {d.lineno}")
+            local = {a.arg for a in node.args.args + node.args.kwonlyargs + node.args.posonlyargs}
+            for n in ast.walk(node):
+                if isinstance(n, (ast.Assign, ast.AnnAssign, ast.For, ast.With, ast.comprehension, ast.NamedExpr)):
+                    for t in ast.walk(n.targets[0] if isinstance(n, ast.Assign) else getattr(n, "target", n)):
+                        if isinstance(t, ast.Name) and isinstance(t.ctx, ast.Store):
+                            local.add(t.id)
+            for n in ast.walk(node):
+                if isinstance(n, ast.Global):
+                    writes.append(f"{name}:{node.name} line {n.lineno}: global {', '.join(n.names)}")
+                tgt = None
+                if isinstance(n, (ast.Assign, ast.AugAssign, ast.AnnAssign, ast.Delete)):
+                    tl = n.targets if isinstance(n, (ast.Assign, ast.Delete)) else [n.target]
+                    for t in tl:
+                        if isinstance(t, (ast.Subscript, ast.Attribute)):
+                            base = t.value
+                            while isinstance(base, (ast.Subscript, ast.Attribute)):
+                                base = base.value
+                            if isinstance(base, ast.Name) and base.id in module_names and base.id not in local:
+                                tgt = base.id
+                if isinstance(n, ast.Call) and isinstance(n.func, ast.Attribute) and n.func.attr in _MUTATORS:
+                    base = n.func.value
+                    if isinstance(base, ast.Name) and base.id in module_names and base.id not in local:
+                        tgt = base.id
+                if tgt:
+                    writes.append(f"{name}:{node.name} line {n.lineno}: writes module-level {tgt}")
+    dt = time.time() - t0
+    expected_cv = ["ahbicht.content_evaluation.fc_evaluators:text_to_be_evaluated_by_format_constraint"]
+    for oname, found, ok in (("state/no-function-writes-module-level-state", writes, not writes),
+                             ("state/context-variables-are-the-documented-ones", ctxvars, sorted(ctxvars) == expected_cv),
+                             ("state/transformers-do-not-rewrite-their-input", inplace, not inplace),
+                             ("state/no-mutable-default-arguments", defaults, not defaults)):
+        ctx.obligation(oname, "discharged" if ok else "undecided", backend="ground check on the ASTs of all modules",
+                       seconds=dt / 4, detail="; ".join(found[:6]) or None)
